@@ -42,7 +42,8 @@ pub fn ci<C: Col>(c: C) -> i32 {
 }
 
 /// Recording target that implements all four methods and drains colour streams to their first
-/// `None`, counting every item (stored: the first area + width + 16 of them).
+/// `None` (through next() and through internal iteration, see fill_contiguous), counting every item
+/// (stored: the first area + width + 16 of them).
 pub struct Drain<C: Col> {
     pub calls: Vec<Value>,
     _c: PhantomData<C>,
@@ -75,15 +76,36 @@ impl<C: Col> DrawTarget for Drain<C> {
         let mut n = 0usize;
         let mut over = false;
         let mut it = colors.into_iter();
-        while let Some(c) = it.next() {
-            if n == HARD_CAP {
-                over = true;
-                break;
+        // How a driver consumes the stream is its own business: pull the first `pre` colours one by one with next()
+        // (nothing, half a row, one row, two rows - rotating from call to call - or everything) and take the rest by
+        // internal iteration (for_each = fold), as an address-window streaming driver does.  Large areas are pulled
+        // with next() only, so that an endless stream can be cut off.
+        let w = area.size.width as usize;
+        let small = (area.size.width as u64) * (area.size.height as u64) <= 1 << 16;
+        let pre = if small { [0, (w + 1) / 2, w, 2 * w, usize::MAX][self.calls.len() % 5] } else { usize::MAX };
+        while n < pre {
+            match it.next() {
+                Some(c) => {
+                    if n == HARD_CAP {
+                        over = true;
+                        break;
+                    }
+                    if cs.len() < keep {
+                        cs.push(ci(c));
+                    }
+                    n += 1;
+                }
+                None => break,
             }
-            if cs.len() < keep {
-                cs.push(ci(c));
-            }
-            n += 1;
+        }
+        if pre != usize::MAX && !over {
+            it.for_each(|c| {
+                assert!(n < HARD_CAP, "harness: colour stream of a small area does not end");
+                if cs.len() < keep {
+                    cs.push(ci(c));
+                }
+                n += 1;
+            });
         }
         self.calls.push(call_json("fc", area, n, over, cs, vec![], 0));
         Ok(())
